@@ -28,6 +28,23 @@ def replay(model, obligation):
         (f.add_callback if which == 'result' else f.add_errback)(lambda r: late.append(r))
         if len(late) != 1:
             fails.append('callback added after completion ran %d times' % len(late))
+    if '/result/' in obligation:
+        # the blocking call reports what was delivered
+        for which in ('result', 'exception'):
+            log = []
+            h1 = rf.Host('h1')
+            f = rf.future(cl, rf.Session(log, {h1: rf.Pool(log, h1)}), [h1])
+            e = Exception('stored')
+            if which == 'result':
+                f._set_final_result(['row'])
+            else:
+                f._set_final_exception(e)
+            try:
+                got = ('ok', list(f.result()))
+            except Exception as x:
+                got = ('exc', x)
+            if (which == 'result' and got != ('ok', ['row'])) or (which == 'exception' and not (got[0] == 'exc' and got[1] is e)):
+                fails.append('result() of a future completed with %s: %r' % ('rows' if which == 'result' else 'an exception', got))
     if 'KF-C14' in obligation:
         log = []
         h1, h2 = rf.Host('h1'), rf.Host('h2')
